@@ -47,6 +47,20 @@ Theorem C16_hidden_or_excluded : forall H excl j ps q v,
 Proof. exact hidden_or_excluded. Qed.
 Print Assumptions C16_hidden_or_excluded.
 
+(* The same in terms of what exclusions denote, for documents whose keys can be
+   written in the notations: a leaf is kept verbatim iff some exclusion denotes
+   its path or a prefix of it, and is replaced by its hash otherwise. *)
+Theorem C16_kept_iff_denoted : forall H excl j ps q v,
+  nodup_keys j = true -> clean_keys j = true ->
+  descend j ps = Some (q, v) -> is_prim v = true ->
+  ((exists e p, In e excl /\ denotes e p /\ is_prefix p q) /\
+   descend (obfuscate_json H excl j) ps = Some (q, v))
+  \/
+  (~ (exists e p, In e excl /\ denotes e p /\ is_prefix p q) /\
+   descend (obfuscate_json H excl j) ps = Some (q, JStr (H (text v)))).
+Proof. exact kept_iff_denoted. Qed.
+Print Assumptions C16_kept_iff_denoted.
+
 (* An exclusion string denotes at most one structured path. *)
 Theorem C16_denotation_unique : forall e p p',
   denotes e p -> denotes e p' -> p = p'.
